@@ -14,6 +14,8 @@ import (
 
 	"github.com/evolbioinfo/goalign/align"
 	"github.com/evolbioinfo/goalign/distance/dna"
+	"github.com/evolbioinfo/goalign/io/phylip"
+	"strings"
 )
 
 type failModel struct {
@@ -100,6 +102,36 @@ func phaseBodies(reps int) {
 	}
 }
 
+// phylipStreamBodies: the producer/consumer protocol of a multi-alignment Phylip
+// stream as the command line uses it: the parser runs in its own goroutine and fills
+// the channel, the consumer ranges over the channel until it is closed and only then
+// reads Err.  A valid first alignment followed by a malformed one.
+func phylipStreamBodies(reps int) {
+	inputs := []string{
+		"   2   4\na  ACGT\nb  AC-T\n   2   4\na  ACGT\nb  AC\n",
+		"   2   4\na  ACGT\nb  AC-T\n   2   4\na  ACGT\nb  ACGT\n",
+		"   2   4\na  ACGT\nb  AC-T\n   x\n",
+		"",
+	}
+	for r := 0; r < reps*200; r++ {
+		for k, in := range inputs {
+			for _, strict := range []bool{false, true} {
+				ac := &align.AlignChannel{Achan: make(chan align.Alignment, 15)}
+				go func() {
+					phylip.NewParser(strings.NewReader(in), strict).ParseMultiple(ac)
+				}()
+				n := 0
+				for range ac.Achan {
+					n++
+				}
+				if (k == 0 || k == 2) && ac.Err == nil {
+					fmt.Println("RACEPASS-ERROR-LOST")
+				}
+			}
+		}
+	}
+}
+
 func main() {
 	log.SetOutput(io.Discard)
 	what := os.Args[1]
@@ -111,6 +143,8 @@ func main() {
 			distBodies(reps)
 		case "phase":
 			phaseBodies(reps)
+		case "phylipstream":
+			phylipStreamBodies(reps)
 		}
 	}
 	fmt.Println("RACEPASS-DONE")
